@@ -246,3 +246,20 @@ pub fn guarded<T>(f: impl FnOnce() -> T) -> Option<T> {
     }
     r.ok()
 }
+
+/// Item types with legal but adversarial `Hash` implementations: equal items hash
+/// equally, but many unequal items collide.  Equality/order are those of the value.
+#[derive(Clone, Copy, Debug, PartialEq, Eq, PartialOrd, Ord)]
+pub struct WeakHash(pub u32);
+impl Hash for WeakHash {
+    fn hash<H: Hasher>(&self, state: &mut H) {
+        (self.0 / 2).hash(state)
+    }
+}
+#[derive(Clone, Copy, Debug, PartialEq, Eq, PartialOrd, Ord)]
+pub struct ConstHash(pub u32);
+impl Hash for ConstHash {
+    fn hash<H: Hasher>(&self, state: &mut H) {
+        7u8.hash(state)
+    }
+}
